@@ -13,7 +13,7 @@ import json, os, re, subprocess, sys
 
 REPO = os.environ.get("VERIF_REPO", "/repo")
 VERIF = os.path.dirname(os.path.dirname(os.path.abspath(__file__)))
-BUILD = os.path.join(VERIF, ".build")
+BUILD = os.environ.get("VERIF_BUILD") or os.path.join(VERIF, ".build")
 GEN = os.path.join(BUILD, "gen")
 
 PURE_GO_VM_ONLY = {"vm_state.go", "vm_multicall.go", "internal_operations.go", "ethstorageproof.go",
